@@ -130,6 +130,12 @@ func (s *pedersenStructure) verifyProofStructure(proof PedersenProof) bool {
 
 func (s *pedersenStructure) commitmentsFromProof(g zkproof.Group, list []*big.Int, challenge *big.Int, proof PedersenProof) []*big.Int {
 	proof.setName(s.name)
+	// The commitment must be an element of the group. With a commitment of 0 (or a multiple of
+	// P) every power of it is 0 and every relation in which it takes part is "satisfied"
+	// whatever the responses are.
+	if proof.Commit.Sign() <= 0 || proof.Commit.Cmp(g.P) >= 0 {
+		g.Taint()
+	}
 	bases := zkproof.NewBaseMerge(&proof, &g)
 	list = append(list, proof.Commit)
 	return s.representation.CommitmentsFromProof(g, list, challenge, &bases, &proof)
